@@ -38,6 +38,18 @@
 //!                              writes of the pass that followed `cutsnap`, at file granularity;
 //!                              level 0: 6 prioritised cut states per pass, 2: 16, 1: all of them)
 //!
+//!   freeze bare       => the same pass, no accessor evaluated before OR after it (the store caches hold
+//!                        exactly what `prime` read since the last restart)
+//!   prime <id> <accs> => ok   (reads block <id> through the store caches, one call per letter: H
+//!                              get_block_header, U get_block_uncles, P get_block_proposal_txs_ids, X
+//!                              get_block_txs_hashes, E get_block_extension, B get_block, K
+//!                              get_packed_block, T get_block_body, C get_cellbase)
+//!   probe <id>        => p<id>:<B><H><C><U><P><E><K> t<n> x<n>  (all nine accessors WARM, get_block first;
+//!                              compared with Model/FreezeCache.lean — see `C10::probe`)
+//!   users             => bp=<proved>/<missing> tp=<filtered blocks>/<txs> flt=<blocks with a filter>
+//!                              (light-client server GetBlocksProof / GetTransactionsProof and the
+//!                              block-filter builder on the node as it is — see `C10::users`)
+//!
 //! ## Write order of `Shared::freeze` (shared/src/shared.rs) and the crash states it allows
 //!
 //!   1. `Freezer::freeze`: for every height `number .. threshold`: `FreezerFiles::append` =
@@ -464,7 +476,10 @@ impl C10<'_> {
                 // leave initial-block-download: the clock is just after the tip's timestamp
                 let ft = ckb_systemtime::faketime();
                 ft.set_faketime(tip.timestamp() + 1000);
-                let cold = t.get(1) == Some(&"cold");
+                // `freeze bare`: no accessor is evaluated before or after the pass (the store caches hold
+                // exactly what `prime` put there; `probe` follows)
+                let bare = t.get(1) == Some(&"bare");
+                let cold = t.get(1) == Some(&"cold") || bare;
                 let cells_before = if cold { None } else { eval(&self.ex).1.get("live-cells:all").cloned() };
                 let shared = node.shared.clone();
                 let r = catch_unwind(AssertUnwindSafe(|| shared.verif_freeze_once()));
@@ -506,13 +521,15 @@ impl C10<'_> {
                 }
                 self.frozen_seen = after;
                 self.warm = true;
-                let (_, exact) = eval(&self.ex);
-                if !cold && exact.get("live-cells:all").cloned() != cells_before {
-                    fail(&mut *self.ex.out, &self.deep, "chain-view-changed-by-freeze", "live cells / indexes / records dump differs across the freeze pass");
+                if !bare {
+                    let (_, exact) = eval(&self.ex);
+                    if !cold && exact.get("live-cells:all").cloned() != cells_before {
+                        fail(&mut *self.ex.out, &self.deep, "chain-view-changed-by-freeze", "live cells / indexes / records dump differs across the freeze pass");
+                    }
+                    self.check(&exact, if cold { "after-freeze-caches-not-primed" } else { "after-freeze-warm" });
                 }
-                self.check(&exact, if cold { "after-freeze-caches-not-primed" } else { "after-freeze-warm" });
                 self.ex.out.op(line, &ans);
-                self.ex.out.count(if cold { "freeze_cold" } else { "freeze" });
+                self.ex.out.count(if bare { "freeze_bare" } else if cold { "freeze_cold" } else { "freeze" });
             }
             "restart" => {
                 self.ex.restart();
@@ -568,9 +585,99 @@ impl C10<'_> {
                 self.cut_check(seed, level);
                 self.ex.out.op(line, "ok");
             }
+            "prime" => {
+                // `prime <id> <accessors>`: read block <id> through the store caches, one call per letter
+                let id: u64 = t[1].parse().expect("prime <id> <accessors>");
+                let h = self.ex.ids.blkv[&id].hash();
+                let store = self.ex.node.as_ref().unwrap().store();
+                for a in t[2].chars() {
+                    let _ = catch_unwind(AssertUnwindSafe(|| match a {
+                        'H' => drop(store.get_block_header(&h)),
+                        'U' => drop(store.get_block_uncles(&h)),
+                        'P' => drop(store.get_block_proposal_txs_ids(&h)),
+                        'X' => drop(store.get_block_txs_hashes(&h)),
+                        'E' => drop(store.get_block_extension(&h)),
+                        'B' => drop(store.get_block(&h)),
+                        'K' => drop(store.get_packed_block(&h)),
+                        'T' => drop(store.get_block_body(&h)),
+                        'C' => drop(store.get_cellbase(&h)),
+                        _ => panic!("prime: unknown accessor {}", a),
+                    }));
+                }
+                self.ex.out.op(line, "ok");
+                self.ex.out.count("prime");
+            }
+            "users" => {
+                let l = self.users();
+                self.ex.out.op(line, &l);
+                self.ex.out.count("users");
+            }
+            "probe" => {
+                let id: u64 = t[1].parse().expect("probe <id>");
+                let l = self.probe(id);
+                self.ex.out.op(line, &l);
+                self.ex.out.count("probe");
+            }
             "block" => self.apply_block(line),
             _ => self.ex.apply(line),
         }
+    }
+
+    /// `probe <id>` => p<id>:<B><H><C><U><P><E><K> t<len get_block_body> x<len get_block_txs_hashes>
+    /// every accessor of block <id> through the store caches AS THEY ARE (no restart), `get_block`
+    /// first: B/K `=` the whole original block, `~` a block with other content (e.g. without its
+    /// transactions), `-` None, `P` panic; H C U P E = is_some.  Compared with
+    /// `Model/FreezeCache.lean`.  Oracle (implementation alone): a main-chain block answers in full
+    /// whatever the caches hold.
+    fn probe(&mut self, id: u64) -> String {
+        let orig = self.ex.ids.blkv[&id].clone();
+        let h = orig.hash();
+        let main = self.is_main(id);
+        let store = self.ex.node.as_ref().unwrap().store();
+        let b = match catch_unwind(AssertUnwindSafe(|| store.get_block(&h))) {
+            Ok(Some(b)) => if b.data().as_slice() == orig.data().as_slice() { '=' } else { '~' },
+            Ok(None) => '-',
+            Err(_) => 'P',
+        };
+        let hd = store.get_block_header(&h);
+        let body = store.get_block_body(&h);
+        let txh = store.get_block_txs_hashes(&h);
+        let cb = store.get_cellbase(&h);
+        let un = store.get_block_uncles(&h);
+        let pr = store.get_block_proposal_txs_ids(&h);
+        let xt = store.get_block_extension(&h);
+        let k = match store.get_packed_block(&h) {
+            Some(p) => if p.as_slice() == orig.data().as_slice() { '=' } else { '~' },
+            None => '-',
+        };
+        let l = format!("p{}:{}{}{}{}{}{}{} t{} x{}", id, b, flag(hd.is_some()), flag(cb.is_some()), flag(un.is_some()), flag(pr.is_some()), flag(xt.is_some()), k, body.len(), txh.len());
+        let frozen = store.freezer().map(|f| f.number()).unwrap_or(0);
+        if main {
+            let full = b == '=' && k == '=' && hd.is_some() && cb.is_some() && un.is_some() && pr.is_some() && (xt.is_some() || id == 0) && body.len() == orig.transactions().len() && txh.len() == body.len();
+            let same = hd.as_ref().map(|x| x.hash() == h).unwrap_or(false)
+                && body.iter().map(|t| t.hash()).collect::<Vec<_>>() == orig.tx_hashes().to_vec()
+                && txh == orig.tx_hashes().to_vec()
+                && un.as_ref().map(|u| u.data().as_slice() == orig.uncles().data().as_slice()).unwrap_or(false)
+                && pr.as_ref().map(|u| u.as_slice() == orig.data().proposals().as_slice()).unwrap_or(false);
+            if !full || !same {
+                fail(&mut *self.ex.out, &self.deep, "main-chain-answer-changed:warm-probe", &format!("{} (freezer.number {})", l, frozen));
+            }
+            if orig.number() >= 1 && orig.number() < frozen {
+                self.ex.out.count("probe_warm_frozen_main_block");
+            }
+        } else {
+            // counted, not judged (reported to the coordinator): caches outlive the rows of a wiped side block
+            if b == 'P' {
+                self.ex.out.count("warm_get_block_panics_on_wiped_side_block_with_cached_header");
+            }
+            if b == '~' {
+                self.ex.out.count("warm_get_block_returns_wiped_side_block_without_transactions");
+            }
+            if store.get_packed_block_header(&h).is_none() {
+                self.ex.out.count("probe_warm_wiped_side_block");
+            }
+        }
+        l
     }
 }
 
@@ -606,6 +713,258 @@ impl C10<'_> {
         for h in hits {
             self.ex.out.count(&h);
         }
+    }
+}
+
+/// Recording mock of `CKBProtocolContext` for the light-client server (only what `reply_proof` /
+/// `reply_tip_state` call: `send_message_to`; the same mock as /repo's cfg(test)-only
+/// util/light-client-protocol-server/src/tests/utils/network_context.rs, reduced)
+#[allow(dead_code, clippy::all)]
+mod lcctx {
+    use ckb_network::{Behaviour, CKBProtocolContext, Error, Peer, PeerIndex, ProtocolId, SupportProtocols, TargetSession, async_trait, bytes::Bytes as P2pBytes};
+    use std::cell::RefCell;
+    use std::future::Future;
+    use std::pin::Pin;
+    use std::sync::Arc;
+    use std::time::Duration;
+
+    pub struct Ctx {
+        pub sent: RefCell<Vec<P2pBytes>>,
+        pub banned: RefCell<Vec<String>>,
+    }
+    // used from one thread at a time (block_on)
+    unsafe impl Send for Ctx {}
+    unsafe impl Sync for Ctx {}
+
+    pub fn new() -> Arc<Ctx> {
+        Arc::new(Ctx { sent: Default::default(), banned: Default::default() })
+    }
+
+    #[async_trait]
+    impl CKBProtocolContext for Ctx {
+        async fn set_notify(&self, _interval: Duration, _token: u64) -> Result<(), Error> { unimplemented!() }
+        async fn remove_notify(&self, _token: u64) -> Result<(), Error> { unimplemented!() }
+        async fn async_quick_send_message(&self, _p: ProtocolId, _i: PeerIndex, _d: P2pBytes) -> Result<(), Error> { unimplemented!() }
+        async fn async_quick_send_message_to(&self, _i: PeerIndex, _d: P2pBytes) -> Result<(), Error> { unimplemented!() }
+        async fn async_quick_filter_broadcast(&self, _t: TargetSession, _d: P2pBytes) -> Result<(), Error> { unimplemented!() }
+        async fn async_future_task(&self, _task: Pin<Box<dyn Future<Output = ()> + 'static + Send>>, _blocking: bool) -> Result<(), Error> { Ok(()) }
+        async fn async_send_message(&self, p: ProtocolId, i: PeerIndex, d: P2pBytes) -> Result<(), Error> { self.send_message(p, i, d) }
+        async fn async_send_message_to(&self, i: PeerIndex, d: P2pBytes) -> Result<(), Error> { self.send_message_to(i, d) }
+        async fn async_filter_broadcast_with_proto(&self, _p: ProtocolId, _t: TargetSession, _d: P2pBytes) -> Result<(), Error> { unimplemented!() }
+        async fn async_quick_filter_broadcast_with_proto(&self, _p: ProtocolId, _t: TargetSession, _d: P2pBytes) -> Result<(), Error> { unimplemented!() }
+        fn quick_send_message(&self, p: ProtocolId, i: PeerIndex, d: P2pBytes) -> Result<(), Error> { self.send_message(p, i, d) }
+        fn quick_send_message_to(&self, i: PeerIndex, d: P2pBytes) -> Result<(), Error> { self.send_message_to(i, d) }
+        fn quick_filter_broadcast_with_proto(&self, _p: ProtocolId, _t: TargetSession, _d: P2pBytes) -> Result<(), Error> { unimplemented!() }
+        async fn async_filter_broadcast(&self, _t: TargetSession, _d: P2pBytes) -> Result<(), Error> { unimplemented!() }
+        async fn async_disconnect(&self, _i: PeerIndex, _m: &str) -> Result<(), Error> { unimplemented!() }
+        fn quick_filter_broadcast(&self, _t: TargetSession, _d: P2pBytes) -> Result<(), Error> { unimplemented!() }
+        fn future_task(&self, _task: Pin<Box<dyn Future<Output = ()> + 'static + Send>>, _blocking: bool) -> Result<(), Error> { Ok(()) }
+        fn send_message(&self, _p: ProtocolId, _i: PeerIndex, d: P2pBytes) -> Result<(), Error> {
+            self.sent.borrow_mut().push(d);
+            Ok(())
+        }
+        fn send_message_to(&self, _i: PeerIndex, d: P2pBytes) -> Result<(), Error> {
+            self.sent.borrow_mut().push(d);
+            Ok(())
+        }
+        fn filter_broadcast(&self, _t: TargetSession, _d: P2pBytes) -> Result<(), Error> { unimplemented!() }
+        fn disconnect(&self, _i: PeerIndex, _m: &str) -> Result<(), Error> { Ok(()) }
+        fn get_peer(&self, _i: PeerIndex) -> Option<Peer> { unimplemented!() }
+        fn with_peer_mut(&self, _i: PeerIndex, _f: Box<dyn FnOnce(&mut Peer)>) { unimplemented!() }
+        fn connected_peers(&self) -> Vec<PeerIndex> { vec![] }
+        fn full_relay_connected_peers(&self) -> Vec<PeerIndex> { vec![] }
+        fn report_peer(&self, _i: PeerIndex, _b: Behaviour) { unimplemented!() }
+        fn ban_peer(&self, _i: PeerIndex, _d: Duration, reason: String) { self.banned.borrow_mut().push(reason); }
+        fn protocol_id(&self) -> ProtocolId { SupportProtocols::LightClient.protocol_id() }
+    }
+}
+
+/// cell provider over the ORIGINAL transactions the harness built (independent of the node's store)
+struct OrigCells<'a>(&'a std::collections::HashMap<Byte32, ckb_types::core::TransactionView>);
+impl ckb_types::utilities::FilterDataProvider for OrigCells<'_> {
+    fn cell(&self, out_point: &ckb_types::packed::OutPoint) -> Option<ckb_types::packed::CellOutput> {
+        let idx: u32 = out_point.index().into();
+        self.0.get(&out_point.tx_hash()).and_then(|tx| tx.outputs().get(idx as usize))
+    }
+}
+
+impl C10<'_> {
+    /// one light-client request to the real `LightClientProtocol` of the node; the decoded reply
+    fn lc_request(&self, msg: ckb_types::packed::LightClientMessage) -> Result<ckb_types::packed::LightClientMessageUnion, String> {
+        let node = self.ex.node.as_ref().unwrap();
+        let ctx = lcctx::new();
+        let nc: std::sync::Arc<dyn ckb_network::CKBProtocolContext + Sync> = ctx.clone();
+        let shared = node.shared.clone();
+        let data = msg.as_bytes();
+        let r = catch_unwind(AssertUnwindSafe(|| {
+            use ckb_network::CKBProtocolHandler;
+            let mut protocol = ckb_light_client_protocol_server::LightClientProtocol::new(shared);
+            crate::node::runtime_handle().block_on(protocol.received(nc, ckb_network::PeerIndex::new(1), data));
+        }));
+        if r.is_err() {
+            return Err("panic".into());
+        }
+        if let Some(b) = ctx.banned.borrow().first() {
+            return Err(format!("banned: {}", b));
+        }
+        let sent = ctx.sent.borrow();
+        let Some(bytes) = sent.first() else { return Err("no reply".into()) };
+        ckb_types::packed::LightClientMessage::from_compatible_slice(bytes).map(|m| m.to_enum()).map_err(|e| format!("undecodable reply: {}", e))
+    }
+
+    /// `users` => bp=<found>/<missing> tp=<blocks>/<txs> flt=<main-chain blocks with a filter>
+    /// The RPC-level users of `ChainStore` on the node AS IT IS (frozen blocks, wiped rows):
+    ///   * light-client server `GetBlocksProof` (last = tip, every other block the case knows):
+    ///     headers / uncles hashes / extensions of the reply must be those of the ORIGINAL blocks;
+    ///   * `GetTransactionsProof` (last = tip, every transaction with a tx-info row): every
+    ///     filtered block carries the original header, the original transactions asked for, the
+    ///     original witnesses root, uncles hash and extension;
+    ///   * the block-filter builder (`BlockFilter::verif_build_once` = `build_filter_data`): every
+    ///     main-chain block has a filter equal to the filter computed from the ORIGINAL block with
+    ///     a cell provider over the original transactions, and the filter hashes chain.
+    /// The counts are compared with the model; the contents are judged here (implementation alone).
+    fn users(&mut self) -> String {
+        use ckb_types::packed;
+        let node = self.ex.node.as_ref().unwrap();
+        let store = node.store();
+        let tip = store.get_tip_header().expect("tip");
+        let mut fails: Vec<(String, String)> = vec![];
+        // ---- GetBlocksProof
+        let mut bids: Vec<u64> = self.ex.ids.blkv.keys().cloned().collect();
+        bids.sort();
+        let ask: Vec<Byte32> = bids.iter().map(|i| self.ex.ids.blkv[i].hash()).filter(|h| *h != tip.hash()).collect();
+        let mut bp = "0/0".to_string();
+        if !ask.is_empty() {
+            let content = packed::GetBlocksProof::new_builder().last_hash(tip.hash()).block_hashes(ask.clone()).build();
+            let msg = packed::LightClientMessage::new_builder().set(content).build();
+            match self.lc_request(msg) {
+                Ok(packed::LightClientMessageUnion::SendBlocksProof(r0)) => {
+                    // (the server sends the V1 table inside the SendBlocksProof variant)
+                    let r = packed::SendBlocksProofV1::from_slice(r0.as_slice()).expect("SendBlocksProofV1");
+                    let headers: Vec<_> = r.headers().into_iter().collect();
+                    let uh: Vec<_> = r.blocks_uncles_hash().into_iter().collect();
+                    let xs: Vec<_> = r.blocks_extension().into_iter().collect();
+                    bp = format!("{}/{}", headers.len(), r.missing_block_hashes().len());
+                    if uh.len() != headers.len() || xs.len() != headers.len() {
+                        fails.push(("light-client-reply-differs-from-block".into(), "GetBlocksProof: lengths of headers / uncles hashes / extensions differ".into()));
+                    }
+                    for (i, h) in headers.iter().enumerate() {
+                        let hash = h.clone().into_view().hash();
+                        let Some(id) = self.ex.ids.blk.get(&hash) else {
+                            fails.push(("light-client-reply-differs-from-block".into(), format!("GetBlocksProof: header {} is no block of the case", i)));
+                            continue;
+                        };
+                        let orig = &self.ex.ids.blkv[id];
+                        let ok = h.as_slice() == orig.header().data().as_slice()
+                            && uh.get(i).map(|u| u.as_slice() == orig.calc_uncles_hash().as_slice()).unwrap_or(false)
+                            && xs.get(i).map(|x| x.to_opt().map(|b| b.as_slice().to_vec()) == orig.extension().map(|b| b.as_slice().to_vec())).unwrap_or(false);
+                        if !ok {
+                            fails.push(("light-client-reply-differs-from-block".into(), format!("GetBlocksProof: b{} header / uncles hash / extension differ from the block", id)));
+                        }
+                    }
+                }
+                Ok(_) => fails.push(("light-client-server-fails-on-frozen-chain".into(), "GetBlocksProof: unexpected reply kind".into())),
+                Err(e) => {
+                    bp = e.split(':').next().unwrap().to_string();
+                    fails.push(("light-client-server-fails-on-frozen-chain".into(), format!("GetBlocksProof: {}", e)));
+                }
+            }
+        }
+        // ---- GetTransactionsProof
+        let mut tids: Vec<u64> = self.ex.ids.txv.keys().cloned().collect();
+        tids.sort();
+        // (a transaction of the last block itself cannot be proved against the last block's parent chain root)
+        let txask: Vec<Byte32> = tids.iter().map(|i| self.ex.ids.txv[i].hash()).filter(|h| store.get_transaction_info(h).map(|i| i.block_hash != tip.hash()).unwrap_or(false)).collect();
+        let mut tp = "0/0".to_string();
+        if !txask.is_empty() {
+            let want: std::collections::HashSet<Byte32> = txask.iter().cloned().collect();
+            let content = packed::GetTransactionsProof::new_builder().last_hash(tip.hash()).tx_hashes(txask.clone()).build();
+            let msg = packed::LightClientMessage::new_builder().set(content).build();
+            match self.lc_request(msg) {
+                Ok(packed::LightClientMessageUnion::SendTransactionsProof(r0)) => {
+                    let r = packed::SendTransactionsProofV1::from_slice(r0.as_slice()).expect("SendTransactionsProofV1");
+                    let fbs: Vec<_> = r.filtered_blocks().into_iter().collect();
+                    let uh: Vec<_> = r.blocks_uncles_hash().into_iter().collect();
+                    let xs: Vec<_> = r.blocks_extension().into_iter().collect();
+                    let mut ntx = 0;
+                    for (i, fb) in fbs.iter().enumerate() {
+                        let hash = fb.header().into_view().hash();
+                        let Some(id) = self.ex.ids.blk.get(&hash) else {
+                            fails.push(("light-client-reply-differs-from-block".into(), format!("GetTransactionsProof: filtered block {} is no block of the case", i)));
+                            continue;
+                        };
+                        let orig = &self.ex.ids.blkv[id];
+                        let txs: Vec<_> = fb.transactions().into_iter().collect();
+                        ntx += txs.len();
+                        let expect: Vec<_> = orig.transactions().into_iter().filter(|t| want.contains(&t.hash())).collect();
+                        let mut got: Vec<Vec<u8>> = txs.iter().map(|t| t.as_slice().to_vec()).collect();
+                        let mut exp: Vec<Vec<u8>> = expect.iter().map(|t| t.data().as_slice().to_vec()).collect();
+                        got.sort();
+                        exp.sort();
+                        let ok = fb.header().as_slice() == orig.header().data().as_slice()
+                            && got == exp
+                            && fb.witnesses_root().as_slice() == orig.calc_witnesses_root().as_slice()
+                            && uh.get(i).map(|u| u.as_slice() == orig.calc_uncles_hash().as_slice()).unwrap_or(false)
+                            && xs.get(i).map(|x| x.to_opt().map(|b| b.as_slice().to_vec()) == orig.extension().map(|b| b.as_slice().to_vec())).unwrap_or(false);
+                        if !ok {
+                            fails.push(("light-client-reply-differs-from-block".into(), format!("GetTransactionsProof: filtered block b{} (header / transactions / witnesses root / uncles hash / extension) differs from the block", id)));
+                        }
+                    }
+                    if r.missing_tx_hashes().len() != 0 {
+                        fails.push(("light-client-reply-differs-from-block".into(), format!("GetTransactionsProof: {} committed transactions reported missing", r.missing_tx_hashes().len())));
+                    }
+                    tp = format!("{}/{}", fbs.len(), ntx);
+                }
+                Ok(_) => fails.push(("light-client-server-fails-on-frozen-chain".into(), "GetTransactionsProof: unexpected reply kind".into())),
+                Err(e) => {
+                    tp = e.split(':').next().unwrap().to_string();
+                    fails.push(("light-client-server-fails-on-frozen-chain".into(), format!("GetTransactionsProof: {}", e)));
+                }
+            }
+        }
+        // ---- block-filter builder
+        let shared = node.shared.clone();
+        let built = catch_unwind(AssertUnwindSafe(|| ckb_block_filter::filter::BlockFilter::new(shared).verif_build_once()));
+        let mut flt = 0u64;
+        if built.is_err() {
+            fails.push(("block-filter-builder-fails-on-frozen-chain".into(), "build_filter_data panicked".into()));
+        } else {
+            let mut all: std::collections::HashMap<Byte32, ckb_types::core::TransactionView> = std::collections::HashMap::new();
+            for b in self.ex.ids.blkv.values() {
+                for t in b.transactions() {
+                    all.insert(t.hash(), t);
+                }
+            }
+            let mut parent_fh = Byte32::zero();
+            for n in 0..=tip.number() {
+                let h = store.get_block_hash(n).expect("index");
+                let Some(id) = self.ex.ids.blk.get(&h) else { continue };
+                let orig = &self.ex.ids.blkv[id];
+                let (want, _missing) = ckb_types::utilities::build_filter_data(OrigCells(&all), &orig.transactions());
+                let want_packed: packed::Bytes = want.clone().into();
+                let got = store.get_block_filter(&h);
+                let want_hash = ckb_types::utilities::calc_filter_hash(&parent_fh, &want_packed);
+                let got_hash = store.get_block_filter_hash(&h);
+                match &got {
+                    Some(g) => {
+                        flt += 1;
+                        if g.as_slice() != want_packed.as_slice() || got_hash.as_ref().map(|x| x.as_slice() != &want_hash[..]).unwrap_or(true) {
+                            fails.push(("block-filter-differs-from-block".into(), format!("b{} at height {} (freezer.number {}): filter data or filter hash differs from the one of the original block", id, n, store.freezer().map(|f| f.number()).unwrap_or(0))));
+                        }
+                    }
+                    None => fails.push(("block-filter-differs-from-block".into(), format!("b{} at height {}: no filter after build_filter_data", id, n))),
+                }
+                parent_fh = want_hash.into();
+            }
+        }
+        let frozen = store.freezer().map(|f| f.number()).unwrap_or(0);
+        for (class, detail) in fails {
+            fail(&mut *self.ex.out, &self.deep, &class, &format!("{} [freezer.number {}]", detail, frozen));
+        }
+        if frozen > 1 {
+            self.ex.out.count("users_on_node_with_frozen_blocks");
+        }
+        format!("bp={} tp={} flt={}", bp, tp, flt)
     }
 }
 
@@ -1273,7 +1632,42 @@ fn gen_case(c: &mut C10, rng: &mut Rng) {
         // the pass: with the accessors evaluated just before it (warm caches), or not (the first reads
         // after the wipe find cold caches and must fall back to the freezer)
         let cold = rng.chance(1, 3);
-        c.apply(if cold { "freeze cold" } else { "freeze" });
+        // store caches across the pass: restart (caches empty), read a side block that this pass will
+        // wipe and/or a main-chain block that it will freeze through chosen accessors, run the pass
+        // without any other read, then every accessor of those blocks warm (compared with
+        // Model/FreezeCache.lean)
+        let primed = rng.chance(1, 2);
+        if primed {
+            c.apply("restart");
+            let tipb = c.ex.ablocks[&c.ex.tip_id()].clone();
+            let cur = tipb.number / l; // epoch number of the tip (epochs of l blocks, genesis opens epoch 0)
+            let limit = if cur > 2 { l * (cur - 1) - 1 } else { 0 };
+            let lo = c.frozen_seen.max(1);
+            let mut side: Vec<u64> = c.ex.ablocks.values().filter(|b| b.number >= lo && b.number < limit && !c.is_main(b.id)).map(|b| b.id).collect();
+            side.retain(|id| c.ex.node.as_ref().unwrap().store().get_packed_block_header(&c.ex.ids.blkv[id].hash()).is_some());
+            side.sort();
+            let mut mainb: Vec<u64> = c.ex.ablocks.values().filter(|b| b.number >= lo && b.number < limit + 2 && c.is_main(b.id)).map(|b| b.id).collect();
+            mainb.sort();
+            let masks = ["H", "B", "HU", "HUP", "HUPE", "UPXE", "HX", "K", "HPU", "TC", "HE"];
+            let mut probes = vec![];
+            if !side.is_empty() {
+                let sid = *rng.pick(&side);
+                c.apply(&format!("prime {} {}", sid, rng.pick(&masks)));
+                probes.push(sid);
+                c.ex.out_count("primed_side_block_at_height_to_be_frozen");
+            }
+            if !mainb.is_empty() && (side.is_empty() || rng.chance(2, 3)) {
+                let mid = *rng.pick(&mainb);
+                c.apply(&format!("prime {} {}", mid, rng.pick(&masks)));
+                probes.push(mid);
+            }
+            c.apply("freeze bare");
+            for id in probes {
+                c.apply(&format!("probe {}", id));
+            }
+        } else {
+            c.apply(if cold { "freeze cold" } else { "freeze" });
+        }
         if rng.chance(1, 2) {
             // warm answers in the model-compared line as well (side blocks just wiped still answer
             // from the header cache here, so only when there is none at a newly frozen height)
@@ -1284,8 +1678,18 @@ fn gen_case(c: &mut C10, rng: &mut Rng) {
                 c.ex.out_count("query_warm_after_pass");
             }
         }
+        // the RPC-level users of the store right after the pass (warm), or after the restart (cold):
+        // light-client server proofs over every block / transaction, block-filter builder (its first
+        // run of the case comes after the pass, so it reads the frozen blocks through the freezer)
+        let users_at = rng.below(3);
+        if users_at == 0 {
+            c.apply("users");
+        }
         c.apply("restart");
         c.apply("query");
+        if users_at == 1 {
+            c.apply("users");
+        }
         c.count_boundaries();
         // second pass without new blocks: nothing more to do, must be idempotent
         if rng.chance(1, 2) {
